@@ -5,9 +5,15 @@ use super::*;
 use crate::crypto::backend::dummy::DummyCrypto;
 use crate::dm::clusters::basic_info::BasicInfoConfig;
 use crate::verif_support::*;
-use crate::{vassert, vcover};
+use crate::transport::exchange::{InitiatorState, ResponderState};
+use crate::{vassert, vcover, vok};
 
 pub(crate) const DEV: BasicInfoConfig<'static> = BasicInfoConfig::new();
+
+/// for harnesses outside this module (the session fields are private)
+pub(crate) fn set_mode(s: &mut Session, m: SessionMode) {
+    s.mode = m;
+}
 const R: u32 = MATTER_MSG_CTR_RANGE; // 2^28 - 1
 
 // ------------------------------------------------------------------------------------------
@@ -81,7 +87,7 @@ fn c12_q_group_ctr_ring_arith() {
 fn c12_q_group_ctr_step() {
     let (mut s, durable) = any_ctr_state();
     let ctr = s.global_group_data_ctr;
-    let (v, p) = s.reserve_global_group_data_ctr(DummyCrypto).unwrap();
+    let (v, p) = vok!(s.reserve_global_group_data_ctr(DummyCrypto), "harness-setup-call-succeeds");
     vassert!(v == ctr, "ROLE:group-ctr-value-is-live-counter");
     vassert!(v >= 1 && v <= R, "ROLE:group-ctr-stays-in-range-nonzero");
     let now_durable = match p {
@@ -146,7 +152,7 @@ fn c12_q_group_ctr_schedule5() {
     let mut step = 0;
     while step < 5 {
         let crash_before_store = any_bool();
-        let (v, p) = s.reserve_global_group_data_ctr(DummyCrypto).unwrap();
+        let (v, p) = vok!(s.reserve_global_group_data_ctr(DummyCrypto), "harness-setup-call-succeeds");
         let mut sent = true;
         if let Some(b) = p {
             if crash_before_store {
@@ -209,7 +215,7 @@ fn c12_q_group_ctr_load_persist() {
     let present = any_bool();
     let mut s = Sessions::new();
     let mut buf = [0u8; 8];
-    s.load_persist(One(b, present), &mut buf).unwrap();
+    vok!(s.load_persist(One(b, present), &mut buf), "harness-setup-call-succeeds");
     if present && b != 0 {
         vcover!(true);
         vassert!(s.global_group_data_ctr == b && s.group_data_ctr_boundary == b, "ROLE:group-ctr-load-resumes-at-stored-boundary");
@@ -217,4 +223,654 @@ fn c12_q_group_ctr_load_persist() {
     if !present {
         vassert!(s.global_group_data_ctr == 0, "ROLE:group-ctr-absent-key-leaves-uninitialised");
     }
+}
+
+// ==========================================================================================
+// Session-table kernels: helpers
+// ==========================================================================================
+pub(crate) fn mk_hdr(ctr: u32, exch: u16, init: bool, reliable: bool, ack: Option<u32>, proto: u16, op: u8) -> PacketHdr {
+    let mut h = PacketHdr::new();
+    h.plain.ctr = ctr;
+    h.proto.exch_id = exch;
+    if init {
+        h.proto.set_initiator();
+    }
+    if reliable {
+        h.proto.set_reliable();
+    }
+    h.proto.set_ack(ack);
+    h.proto.proto_id = proto;
+    h.proto.proto_opcode = op;
+    h
+}
+
+fn any_role() -> Role {
+    let k = any_u8();
+    assume(k < 5);
+    match k {
+        0 => Role::Initiator(InitiatorState::Owned),
+        1 => Role::Initiator(InitiatorState::Dropped),
+        2 => Role::Responder(ResponderState::AcceptPending),
+        3 => Role::Responder(ResponderState::Owned),
+        _ => Role::Responder(ResponderState::Dropped),
+    }
+}
+
+fn any_mode() -> SessionMode {
+    let k = any_u8();
+    assume(k < 4);
+    match k {
+        0 => SessionMode::PlainText,
+        1 => SessionMode::Pase { fab_idx: any_u8() },
+        2 => {
+            let f = any_u8();
+            assume(f != 0);
+            SessionMode::Case {
+                fab_idx: NonZeroU8::new(f).unwrap(),
+                cat_ids: [0; 3],
+            }
+        }
+        _ => {
+            let f = any_u8();
+            assume(f != 0);
+            SessionMode::Group {
+                fab_idx: NonZeroU8::new(f).unwrap(),
+                group_id: any_u16(),
+            }
+        }
+    }
+}
+
+fn count_exch(s: &Session) -> usize {
+    let mut n = 0;
+    let mut i = 0;
+    while i < s.exchanges.len() {
+        if s.exchanges[i].is_some() {
+            n += 1;
+        }
+        i += 1;
+    }
+    n
+}
+
+/// A fresh secure (CASE) session as `Sessions::add` creates it.
+fn fresh_case_session(ss: &mut Sessions) -> &mut Session {
+    let s = vok!(ss.add(any_u32(), false, Address::new(), Some(77), &DEV), "harness-setup-call-succeeds");
+    s.mode = SessionMode::Case {
+        fab_idx: NonZeroU8::new(1).unwrap(),
+        cat_ids: [0; 3],
+    };
+    s
+}
+
+// ==========================================================================================
+// C04 at the session level: duplicates surface as Err(Duplicate) before exchange processing;
+// the window state a session starts in is the one the dedup harnesses start from.
+// ==========================================================================================
+#[cfg_attr(kani, kani::proof)]
+#[cfg_attr(kani, kani::unwind(8))]
+#[cfg_attr(kani, kani::stub(embassy_time::Instant::now, crate::verif_support::stub_instant_now))]
+#[cfg_attr(not(kani), test)]
+fn c04_q_session_initial_window_state() {
+    let mut ss = Sessions::new();
+    let s = vok!(ss.add(any_u32(), any_bool(), Address::new(), None, &DEV), "harness-setup-call-succeeds");
+    let init = crate::transport::dedup::verif_kani_dedup::initial_state();
+    vassert!(
+        crate::transport::dedup::verif_kani_dedup::state_eq(&s.rx_ctr_state, &init),
+        "ROLE:session-starts-in-the-initial-window-state"
+    );
+    let s2 = Session::new(1, any_u32(), false, Address::new(), None, 300, 300, 4000);
+    vassert!(
+        crate::transport::dedup::verif_kani_dedup::state_eq(&s2.rx_ctr_state, &init),
+        "ROLE:session-starts-in-the-initial-window-state"
+    );
+}
+
+#[cfg_attr(kani, kani::proof)]
+#[cfg_attr(kani, kani::unwind(8))]
+#[cfg_attr(kani, kani::stub(embassy_time::Instant::now, crate::verif_support::stub_instant_now))]
+#[cfg_attr(not(kani), test)]
+fn c04_q_session_first_two_messages() {
+    let mut ss = Sessions::new();
+    let s = fresh_case_session(&mut ss);
+    let c1 = any_u32();
+    let c2 = any_u32();
+    let e1 = 7u16;
+    // first message of the session: an initiator message opening an exchange
+    let r1 = s.post_recv(&mk_hdr(c1, e1, true, true, None, 1, 2));
+    vassert!(r1.is_ok(), "ROLE:first-message-accepted");
+    let n_exch = count_exch(s);
+    let w = crate::transport::dedup::verif_kani_dedup::state_fields(&s.rx_ctr_state);
+    let ctr_before = s.msg_ctr;
+    let r2 = s.post_recv(&mk_hdr(c2, 9, true, true, None, 1, 2));
+    if c2 == c1 {
+        vcover!(true);
+        let dup = match &r2 {
+            Err(e) => e.code() == ErrorCode::Duplicate,
+            Ok(_) => false,
+        };
+        vassert!(dup, "ROLE:duplicate-surfaces-as-error-before-exchange-processing");
+        vassert!(count_exch(s) == n_exch, "ROLE:duplicate-leaves-exchange-table-untouched");
+        vassert!(
+            crate::transport::dedup::verif_kani_dedup::state_fields(&s.rx_ctr_state) == w,
+            "ROLE:duplicate-leaves-window-untouched"
+        );
+        vassert!(s.msg_ctr == ctr_before, "ROLE:duplicate-leaves-send-counter-untouched");
+    }
+    if c2 != c1 && (c2 > c1 || c1 - c2 <= 16) {
+        vcover!(c2 < c1);
+        let dup = match &r2 {
+            Err(e) => e.code() == ErrorCode::Duplicate,
+            Ok(_) => false,
+        };
+        vassert!(!dup, "ROLE:first-time-counter-not-reported-duplicate");
+    }
+    if c2 < c1 && c1 - c2 > 16 {
+        vcover!(true);
+        vassert!(r2.is_err(), "ROLE:older-than-window-rejected");
+    }
+}
+
+// ==========================================================================================
+// C10: exchange matching and the new-exchange gate
+// ==========================================================================================
+#[cfg_attr(kani, kani::proof)]
+#[cfg_attr(kani, kani::unwind(8))]
+#[cfg_attr(kani, kani::stub(embassy_time::Instant::now, crate::verif_support::stub_instant_now))]
+#[cfg_attr(not(kani), test)]
+fn c10_q_exchange_matching_and_gate() {
+    let mut ss = Sessions::new();
+    let s = fresh_case_session(&mut ss);
+    // up to 3 slots, some of them free again
+    let n = any_u8();
+    assume(n <= 3);
+    let mut ids = [0u16; 3];
+    let mut resp = [false; 3];
+    let mut live = [false; 3];
+    let mut i = 0usize;
+    while i < n as usize {
+        let id = any_u16();
+        let role = any_role();
+        let idx = s.add_exch(id, role).unwrap();
+        vassert!(idx == i, "ROLE:exchange-slots-fill-in-order");
+        ids[i] = id;
+        resp[i] = matches!(role, Role::Responder(_));
+        live[i] = true;
+        if any_bool() {
+            s.exchanges[i] = None;
+            live[i] = false;
+        }
+        i += 1;
+    }
+    s.expired = any_bool();
+    let expired = s.expired;
+    let init = any_bool();
+    let eid = any_u16();
+    let proto = any_u16();
+    let op = any_u8();
+    let rx = mk_hdr(any_u32(), eid, init, any_bool(), None, proto, op);
+
+    // reference: first live slot with the same id and the opposite role
+    let mut want: Option<usize> = None;
+    let mut k = 0usize;
+    while k < 3 {
+        if want.is_none() && live[k] && ids[k] == eid && resp[k] == init {
+            want = Some(k);
+        }
+        k += 1;
+    }
+    vassert!(s.get_exch_for_rx(&rx.proto) == want, "ROLE:message-matches-only-its-own-exchange(first-same-id-opposite-role)");
+
+    let before = count_exch(s);
+    let r = s.post_recv(&rx);
+    let is_ack_or_status = proto == 0 && (op == 0x10 || op == 0x40);
+    match (&r, want) {
+        (Ok(new), Some(_)) => {
+            vcover!(true);
+            vassert!(!*new, "ROLE:delivery-to-existing-exchange-creates-none");
+            vassert!(count_exch(s) == before, "ROLE:delivery-to-existing-exchange-creates-none");
+        }
+        (Ok(new), None) => {
+            vcover!(true);
+            vassert!(*new, "ROLE:unmatched-accepted-message-opens-exchange");
+            vassert!(init, "ROLE:new-exchange-only-from-initiator-message");
+            vassert!(!is_ack_or_status, "ROLE:new-exchange-never-from-standalone-ack-or-status");
+            vassert!(!expired, "ROLE:new-exchange-never-on-expired-session");
+            vassert!(count_exch(s) == before + 1, "ROLE:new-exchange-occupies-one-slot");
+            // and it is a responder exchange with the message's id
+            let idx = s.get_exch_for_rx(&rx.proto);
+            vassert!(idx.is_some(), "ROLE:new-exchange-matches-its-opening-message");
+            let e = s.exchanges[idx.unwrap()].as_ref().unwrap();
+            vassert!(e.exch_id == eid && matches!(e.role, Role::Responder(ResponderState::AcceptPending)), "ROLE:new-exchange-is-responder-accept-pending");
+        }
+        (Err(e), None) => {
+            vcover!(true);
+            vassert!(count_exch(s) == before, "ROLE:refused-message-creates-no-exchange");
+            if !init || is_ack_or_status {
+                vassert!(e.code() == ErrorCode::NoExchange, "ROLE:answer-to-unknown-exchange-dropped(NoExchange)");
+            } else if expired {
+                vassert!(e.code() == ErrorCode::NoSession, "ROLE:expired-session-refuses-new-exchange(NoSession)");
+            }
+        }
+        (Err(_), Some(_)) => {}
+    }
+    // only the MRP layer can refuse a matched message (foreign ack => Duplicate) - no ack here
+    vassert!(!(r.is_err() && want.is_some()), "ROLE:matched-message-without-ack-is-delivered");
+    let free_slot = (n as usize) < MAX_EXCHANGES || !(live[0] && live[1] && live[2]);
+    if want.is_none() && init && !is_ack_or_status && !expired && free_slot {
+        vassert!(r.is_ok(), "ROLE:legitimate-initiator-message-opens-exchange-when-slot-free");
+    }
+}
+
+/// Exchange slot table full (MAX_EXCHANGES live exchanges): a new initiator message gets
+/// NoSpaceExchanges and nothing changes.
+#[cfg_attr(kani, kani::proof)]
+#[cfg_attr(kani, kani::unwind(8))]
+#[cfg_attr(kani, kani::stub(embassy_time::Instant::now, crate::verif_support::stub_instant_now))]
+#[cfg_attr(not(kani), test)]
+fn c10_q_exchange_table_full() {
+    let mut ss = Sessions::new();
+    let s = fresh_case_session(&mut ss);
+    let mut i = 0;
+    while i < MAX_EXCHANGES {
+        // distinct ids 100.. so that the probe id below is new
+        s.add_exch(100 + i as u16, Role::Responder(ResponderState::Owned)).unwrap();
+        i += 1;
+    }
+    let eid = any_u16();
+    assume(eid < 100);
+    let r = s.post_recv(&mk_hdr(any_u32(), eid, true, true, None, 1, 2));
+    let full = match &r {
+        Err(e) => e.code() == ErrorCode::NoSpaceExchanges,
+        Ok(_) => false,
+    };
+    vassert!(full, "ROLE:no-free-slot-yields-NoSpaceExchanges");
+    vassert!(count_exch(s) == MAX_EXCHANGES, "ROLE:refused-message-creates-no-exchange");
+    // a freed slot is reused
+    s.exchanges[2] = None;
+    let r = s.post_recv(&mk_hdr(any_u32(), eid, true, true, None, 1, 2));
+    if r.is_ok() {
+        vcover!(true);
+        vassert!(s.exchanges[2].as_ref().map(|e| e.exch_id) == Some(eid), "ROLE:freed-slot-is-reused");
+    }
+}
+
+/// remove_exch: the slot is freed iff nothing is pending; otherwise marked dropped.
+#[cfg_attr(kani, kani::proof)]
+#[cfg_attr(kani, kani::unwind(8))]
+#[cfg_attr(kani, kani::stub(embassy_time::Instant::now, crate::verif_support::stub_instant_now))]
+#[cfg_attr(not(kani), test)]
+fn c10_q_remove_exch() {
+    let mut ss = Sessions::new();
+    let s = fresh_case_session(&mut ss);
+    let idx = s.add_exch(any_u16(), any_role()).unwrap();
+    let retr = any_bool();
+    let ack = any_bool();
+    let acked = any_bool();
+    {
+        let e = s.exchanges[idx].as_mut().unwrap();
+        if retr {
+            e.mrp.retrans = Some(RetransEntry::new(None, any_u32()));
+        }
+        if ack {
+            let mut a = vok!(crate::transport::mrp::AckEntry::new(any_u32()), "harness-setup-call-succeeds");
+            a.acknowledged = acked;
+            e.mrp.ack = Some(a);
+        }
+    }
+    let freed = s.remove_exch(idx);
+    let pending = retr || (ack && !acked);
+    vassert!(freed == !pending, "ROLE:dropped-exchange-freed-iff-nothing-pending");
+    if freed {
+        vassert!(s.exchanges[idx].is_none(), "ROLE:dropped-exchange-freed-iff-nothing-pending");
+    } else {
+        vcover!(true);
+        vassert!(s.exchanges[idx].as_ref().unwrap().role.is_dropped_state(), "ROLE:pending-exchange-marked-dropped");
+    }
+}
+
+// ==========================================================================================
+// C15: counters, retransmissions, identifier uniqueness
+// ==========================================================================================
+/// A message that is not a retransmission gets the session counter and leaves counter + 1.
+#[cfg_attr(kani, kani::proof)]
+#[cfg_attr(kani, kani::unwind(8))]
+#[cfg_attr(kani, kani::stub(embassy_time::Instant::now, crate::verif_support::stub_instant_now))]
+#[cfg_attr(not(kani), test)]
+fn c15_q_send_counter_strictly_increases() {
+    let mut ss = Sessions::new();
+    let s = fresh_case_session(&mut ss);
+    s.msg_ctr = any_u32();
+    // stated assumption: a session ends before 2^32 messages
+    assume(s.msg_ctr < u32::MAX - 3);
+    let c0 = s.msg_ctr;
+    let ei = s.add_exch(any_u16(), any_role()).unwrap();
+    let mut tx1 = PacketHdr::new();
+    if any_bool() {
+        tx1.proto.set_reliable();
+    }
+    let reliable1 = tx1.proto.is_reliable();
+    let (_, retr1) = vok!(s.pre_send(Some(ei), &mut tx1, None, None), "harness-setup-call-succeeds");
+    vassert!(!retr1, "ROLE:first-transmission-is-not-a-retransmission");
+    vassert!(tx1.plain.ctr == c0 && s.msg_ctr == c0 + 1, "ROLE:new-message-takes-counter-and-increments");
+    // the peer acknowledges (or the message was unreliable): next message is a NEW one
+    if reliable1 {
+        let rx = mk_hdr(any_u32(), s.exchanges[ei].as_ref().unwrap().exch_id,
+            matches!(s.exchanges[ei].as_ref().unwrap().role, Role::Responder(_)), false, Some(c0), 1, 5);
+        vassert!(s.post_recv(&rx).is_ok(), "ROLE:matching-ack-accepted");
+    }
+    let mut tx2 = PacketHdr::new();
+    tx2.proto.set_reliable();
+    let (_, retr2) = vok!(s.pre_send(Some(ei), &mut tx2, None, None), "harness-setup-call-succeeds");
+    vassert!(!retr2, "ROLE:after-ack-next-message-is-new");
+    vassert!(tx2.plain.ctr == c0 + 1 && tx2.plain.ctr > tx1.plain.ctr, "ROLE:new-message-counter-strictly-greater");
+    // standalone message without exchange also consumes a fresh counter
+    let mut tx3 = PacketHdr::new();
+    let _ = vok!(s.pre_send(None, &mut tx3, None, None), "harness-setup-call-succeeds");
+    vassert!(tx3.plain.ctr == c0 + 2, "ROLE:new-message-counter-strictly-greater");
+}
+
+/// A retransmission carries the same counter and the same header as the original, whatever
+/// single message is received in between (unless that message acknowledges it).
+#[cfg_attr(kani, kani::proof)]
+#[cfg_attr(kani, kani::unwind(8))]
+#[cfg_attr(kani, kani::stub(embassy_time::Instant::now, crate::verif_support::stub_instant_now))]
+#[cfg_attr(not(kani), test)]
+fn c15_q_retransmission_identical_header() {
+    let mut ss = Sessions::new();
+    let s = fresh_case_session(&mut ss);
+    s.peer_sess_id = any_u16();
+    assume(s.msg_ctr < u32::MAX - 1);
+    let eid = any_u16();
+    let ei = s.add_exch(eid, Role::Initiator(Default::default())).unwrap();
+    // possibly a pending ack from a message received earlier
+    let had_ack = any_bool();
+    if had_ack {
+        s.exchanges[ei].as_mut().unwrap().mrp.ack = Some(vok!(crate::transport::mrp::AckEntry::new(any_u32()), "harness-setup-call-succeeds"));
+    }
+    let mut tx1 = PacketHdr::new();
+    tx1.proto.set_reliable();
+    tx1.proto.proto_id = 1;
+    tx1.proto.proto_opcode = 2;
+    let (_, retr1) = vok!(s.pre_send(Some(ei), &mut tx1, None, None), "harness-setup-call-succeeds");
+    vassert!(!retr1, "ROLE:first-transmission-is-not-a-retransmission");
+    let ctr_after_first = s.msg_ctr;
+    // at most one incoming message on the same exchange that does not acknowledge tx1
+    let interleaved = any_bool();
+    let mut rx_reliable = false;
+    if interleaved {
+        let ack = if any_bool() { Some(any_u32()) } else { None };
+        if let Some(a) = ack {
+            assume(a != tx1.plain.ctr);
+        }
+        rx_reliable = any_bool();
+        let rx = mk_hdr(any_u32(), eid, false, rx_reliable, ack, 1, 5);
+        let _ = s.post_recv(&rx);
+    }
+    let mut tx2 = PacketHdr::new();
+    tx2.proto.set_reliable();
+    tx2.proto.proto_id = 1;
+    tx2.proto.proto_opcode = 2;
+    if let Ok((_, retr2)) = s.pre_send(Some(ei), &mut tx2, None, None) {
+        vassert!(retr2, "ROLE:unacknowledged-message-is-retransmitted");
+        vassert!(tx2.plain.ctr == tx1.plain.ctr, "ROLE:retransmission-reuses-the-counter");
+        vassert!(s.msg_ctr == ctr_after_first, "ROLE:retransmission-consumes-no-counter");
+        vassert!(tx2.plain.sess_id == tx1.plain.sess_id && tx2.plain.sec_flags == tx1.plain.sec_flags
+            && tx2.plain.get_src_nodeid() == tx1.plain.get_src_nodeid()
+            && tx2.plain.get_dst_unicast_nodeid() == tx1.plain.get_dst_unicast_nodeid(),
+            "ROLE:retransmission-same-plain-header");
+        vassert!(tx2.proto.exch_id == tx1.proto.exch_id && tx2.proto.is_initiator() == tx1.proto.is_initiator()
+            && tx2.proto.is_reliable() == tx1.proto.is_reliable(),
+            "ROLE:retransmission-same-exchange-header");
+        if !interleaved || !rx_reliable {
+            vcover!(interleaved);
+            vassert!(tx2.proto.get_ack() == tx1.proto.get_ack(), "ROLE:retransmission-same-piggybacked-ack(no reliable message received in between)");
+        } else {
+            vcover!(true);
+            vassert!(tx2.proto.get_ack() == tx1.proto.get_ack(), "ROLE:retransmission-same-piggybacked-ack(reliable message received in between)");
+        }
+    }
+}
+
+/// Locally chosen session ids: non-zero and unique among live sessions (3 live sessions).
+#[cfg_attr(kani, kani::proof)]
+#[cfg_attr(kani, kani::unwind(8))]
+#[cfg_attr(kani, kani::stub(embassy_time::Instant::now, crate::verif_support::stub_instant_now))]
+#[cfg_attr(not(kani), test)]
+fn c15_q_session_id_unique() {
+    let mut ss = Sessions::new();
+    let mut ids = [0u16; 3];
+    let mut i = 0;
+    while i < 3 {
+        let s = vok!(ss.add(1, any_bool(), Address::new(), None, &DEV), "harness-setup-call-succeeds");
+        s.local_sess_id = any_u16();
+        ids[i] = s.local_sess_id;
+        i += 1;
+    }
+    ss.next_sess_id = any_u16();
+    // representation invariant of the allocator cursor: never 0 (starts at 1, wraps to 1)
+    assume(ss.next_sess_id != 0);
+    let id = ss.get_next_sess_id();
+    vassert!(id != 0, "ROLE:session-id-never-zero");
+    vassert!(id != ids[0] && id != ids[1] && id != ids[2], "ROLE:session-id-unique-among-live-sessions");
+    vassert!(ss.next_sess_id != 0, "ROLE:session-id-cursor-never-zero");
+    vcover!(ss.next_sess_id == 1);
+}
+
+/// Locally chosen exchange ids: unique among live exchanges this node initiated.
+#[cfg_attr(kani, kani::proof)]
+#[cfg_attr(kani, kani::unwind(8))]
+#[cfg_attr(kani, kani::stub(embassy_time::Instant::now, crate::verif_support::stub_instant_now))]
+#[cfg_attr(not(kani), test)]
+fn c15_q_exchange_id_unique() {
+    let mut ss = Sessions::new();
+    let a = vok!(ss.add(1, false, Address::new(), Some(77), &DEV), "harness-setup-call-succeeds");
+    let e1 = any_u16();
+    let r1 = any_role();
+    a.add_exch(e1, r1).unwrap();
+    let e2 = any_u16();
+    let r2 = any_role();
+    a.add_exch(e2, r2).unwrap();
+    ss.next_exch_id = any_u16();
+    let seeded = ss.next_exch_id != 0;
+    let id = vok!(ss.get_next_exch_id(crate::verif_support::vcrypto::VerifCrypto), "harness-setup-call-succeeds");
+    if matches!(r1, Role::Initiator(_)) {
+        vcover!(seeded);
+        vassert!(id != e1, "ROLE:exchange-id-unique-among-live-initiator-exchanges");
+    }
+    if matches!(r2, Role::Initiator(_)) {
+        vassert!(id != e2, "ROLE:exchange-id-unique-among-live-initiator-exchanges");
+    }
+    vassert!(ss.next_exch_id != 0, "ROLE:exchange-id-cursor-never-zero");
+}
+
+// ==========================================================================================
+// C20: session table reclamation kernels
+// ==========================================================================================
+fn populate3(ss: &mut Sessions) {
+    let mut i = 0;
+    while i < 3 {
+        let reserved = any_bool();
+        let s = vok!(ss.add(1, reserved, Address::new(), None, &DEV), "harness-setup-call-succeeds");
+        s.mode = any_mode();
+        s.expired = any_bool();
+        s.last_use = Instant::from_ticks(any_u64());
+        if any_bool() {
+            s.add_exch(any_u16(), any_role()).unwrap();
+        }
+        i += 1;
+    }
+}
+
+#[cfg_attr(kani, kani::proof)]
+#[cfg_attr(kani, kani::unwind(8))]
+#[cfg_attr(kani, kani::stub(embassy_time::Instant::now, crate::verif_support::stub_instant_now))]
+#[cfg_attr(not(kani), test)]
+fn c20_q_eviction_choice() {
+    let mut ss = Sessions::new();
+    populate3(&mut ss);
+    set_now(any_u64());
+    let now = now_ticks();
+    // clock contract: non-decreasing => no session was used after "now" (ties allowed)
+    let mut i = 0;
+    let mut idle_exists = false;
+    let mut idle_expired_exists = false;
+    let mut idle_strictly_older_exists = false;
+    while i < 3 {
+        let s = &ss.sessions[i];
+        assume(s.last_use.as_ticks() <= now);
+        let idle = !s.reserved && count_exch(s) == 0;
+        idle_exists |= idle;
+        idle_expired_exists |= idle && s.expired;
+        idle_strictly_older_exists |= idle && s.last_use.as_ticks() < now;
+        i += 1;
+    }
+    match ss.get_session_for_eviction() {
+        Some(s) => {
+            vcover!(true);
+            vassert!(!s.reserved, "ROLE:eviction-never-picks-reserved-session");
+            vassert!(count_exch(s) == 0, "ROLE:eviction-never-picks-session-with-live-exchange");
+            if idle_expired_exists {
+                vcover!(true);
+                vassert!(s.expired, "ROLE:eviction-prefers-expired-sessions");
+            }
+        }
+        None => {
+            vcover!(true);
+            vassert!(!idle_expired_exists, "ROLE:idle-expired-session-is-offered");
+            vassert!(!idle_strictly_older_exists, "ROLE:idle-session-is-offered(last use before now)");
+            vassert!(!idle_exists, "ROLE:idle-session-is-offered(last use in the same clock tick)");
+        }
+    }
+}
+
+/// `add` fails exactly when the table is full (symbolic fill level up to the real capacity).
+#[cfg_attr(kani, kani::proof)]
+#[cfg_attr(kani, kani::unwind(18))]
+#[cfg_attr(kani, kani::stub(embassy_time::Instant::now, crate::verif_support::stub_instant_now))]
+#[cfg_attr(not(kani), test)]
+fn c20_t_add_fails_iff_table_full() {
+    let mut ss = Sessions::new();
+    let n = any_usize();
+    assume(n <= MAX_SESSIONS);
+    let mut i = 0;
+    while i < n {
+        vok!(ss.add(1, false, Address::new(), None, &DEV), "harness-setup-call-succeeds");
+        i += 1;
+    }
+    let r = ss.add(1, any_bool(), Address::new(), None, &DEV);
+    match r {
+        Ok(_) => vassert!(n < MAX_SESSIONS, "ROLE:add-succeeds-while-capacity-left"),
+        Err(e) => {
+            vcover!(true);
+            vassert!(n == MAX_SESSIONS, "ROLE:add-fails-only-when-full");
+            vassert!(e.code() == ErrorCode::NoSpaceSessions, "ROLE:table-full-reported-as-NoSpaceSessions");
+        }
+    }
+    // remove frees the slot again
+    if n == MAX_SESSIONS {
+        let id = ss.sessions[0].id;
+        vassert!(ss.remove(id).is_some(), "ROLE:remove-frees-slot");
+        vassert!(ss.add(1, false, Address::new(), None, &DEV).is_ok(), "ROLE:remove-frees-slot");
+    }
+}
+
+/// PASE purge: afterwards no PASE session is left except the answering one, which is expired.
+#[cfg_attr(kani, kani::proof)]
+#[cfg_attr(kani, kani::unwind(8))]
+#[cfg_attr(kani, kani::stub(embassy_time::Instant::now, crate::verif_support::stub_instant_now))]
+#[cfg_attr(not(kani), test)]
+fn c20_q_pase_purge() {
+    let mut ss = Sessions::new();
+    populate3(&mut ss);
+    let keep = if any_bool() { Some(ss.sessions[any_in(0, 2) as usize].id) } else { None };
+    let mut non_pase = 0;
+    let mut i = 0;
+    while i < 3 {
+        if !matches!(ss.sessions[i].mode, SessionMode::Pase { .. }) {
+            non_pase += 1;
+        }
+        i += 1;
+    }
+    ss.remove_pase(keep);
+    let mut left_non_pase = 0;
+    let mut i = 0;
+    while i < ss.sessions.len() {
+        let s = &ss.sessions[i];
+        if matches!(s.mode, SessionMode::Pase { .. }) {
+            vcover!(true);
+            vassert!(Some(s.id) == keep, "ROLE:pase-purge-leaves-only-the-answering-session");
+            vassert!(s.expired, "ROLE:pase-purge-expires-the-answering-session");
+        } else {
+            left_non_pase += 1;
+        }
+        i += 1;
+    }
+    vassert!(left_non_pase == non_pase, "ROLE:pase-purge-leaves-other-sessions");
+}
+
+// ==========================================================================================
+// C07: sessions of a fabric that is gone
+// ==========================================================================================
+#[cfg_attr(kani, kani::proof)]
+#[cfg_attr(kani, kani::unwind(8))]
+#[cfg_attr(kani, kani::stub(embassy_time::Instant::now, crate::verif_support::stub_instant_now))]
+#[cfg_attr(not(kani), test)]
+fn c07_q_remove_for_fabric() {
+    let mut ss = Sessions::new();
+    populate3(&mut ss);
+    let f = any_u8();
+    assume(f != 0);
+    let keep = if any_bool() { Some(ss.sessions[any_in(0, 2) as usize].id) } else { None };
+    // remember the sessions of other fabrics
+    let mut other = [(0u32, false); 3];
+    let mut n_other = 0;
+    let mut i = 0;
+    while i < 3 {
+        let s = &ss.sessions[i];
+        if s.mode.fab_idx() != f {
+            other[n_other] = (s.id, s.expired);
+            n_other += 1;
+        }
+        i += 1;
+    }
+    ss.remove_for_fabric(NonZeroU8::new(f).unwrap(), keep);
+    let mut seen_other = 0;
+    let mut i = 0;
+    while i < ss.sessions.len() {
+        let s = &ss.sessions[i];
+        if s.mode.fab_idx() == f {
+            vcover!(true);
+            vassert!(Some(s.id) == keep, "ROLE:no-session-of-removed-fabric-survives(except the answering one)");
+            vassert!(s.expired, "ROLE:answering-session-of-removed-fabric-is-expired");
+        } else {
+            let mut k = 0;
+            while k < n_other {
+                if other[k].0 == s.id {
+                    seen_other += 1;
+                    if Some(s.id) != keep {
+                        vassert!(s.expired == other[k].1, "ROLE:sessions-of-other-fabrics-unaffected");
+                    }
+                }
+                k += 1;
+            }
+        }
+        i += 1;
+    }
+    vassert!(seen_other == n_other, "ROLE:sessions-of-other-fabrics-unaffected");
+}
+
+/// An expired session (the answering session of a removed fabric) opens no new exchange.
+#[cfg_attr(kani, kani::proof)]
+#[cfg_attr(kani, kani::unwind(8))]
+#[cfg_attr(kani, kani::stub(embassy_time::Instant::now, crate::verif_support::stub_instant_now))]
+#[cfg_attr(not(kani), test)]
+fn c07_q_expired_session_refuses_new_exchange() {
+    let mut ss = Sessions::new();
+    let s = fresh_case_session(&mut ss);
+    s.mode = any_mode();
+    s.expired = true;
+    let r = s.post_recv(&mk_hdr(any_u32(), any_u16(), any_bool(), any_bool(), None, any_u16(), any_u8()));
+    vassert!(r.is_err(), "ROLE:expired-session-opens-no-new-exchange");
+    vassert!(count_exch(s) == 0, "ROLE:expired-session-opens-no-new-exchange");
 }
